@@ -314,9 +314,11 @@ fn case(rng: &mut Rng, rep: &mut Report, case_no: u64, dump: bool) {
 /// Same registration structure over (a) distinctly named resource types and (b) distinct resource
 /// types that all carry the *same* type name (declared in sibling blocks): "which concrete types
 /// stand for the resources" must not matter, whatever their names are.
-fn same_named_types(rep: &mut Report, case_no: u64) {
+/// Two builders with the same registration structure: `a` over distinctly named resource types,
+/// `b` over distinct resource types that all carry the *same* type name (declared in sibling
+/// blocks). Also returns the (equal) type names of the first two block-local types.
+pub fn same_named_builders(pool: &crate::sys::Pool) -> (shred::DispatcherBuilder<'static, 'static>, shred::DispatcherBuilder<'static, 'static>, &'static str, &'static str) {
     use shred::{DispatcherBuilder, Read, System, Write};
-    rep.evaluations += 1;
     // registers one writer (and optionally one reader) of a block-local resource type
     macro_rules! block_local {
         ($b:expr, $reader:expr) => {{
@@ -327,12 +329,19 @@ fn same_named_types(rep: &mut Report, case_no: u64) {
                 type SystemData = Write<'a, Counter>;
                 fn run(&mut self, mut d: Self::SystemData) {
                     d.0 += 1;
+                    // stay inside run for a few microseconds (a reader placed beside us would meet us)
+                    for i in 0..2_000u32 {
+                        std::hint::black_box(i);
+                    }
                 }
             }
             struct Rd;
             impl<'a> System<'a> for Rd {
                 type SystemData = Read<'a, Counter>;
                 fn run(&mut self, d: Self::SystemData) {
+                    for i in 0..2_000u32 {
+                        std::hint::black_box(i);
+                    }
                     std::hint::black_box(d.0);
                 }
             }
@@ -367,7 +376,6 @@ fn same_named_types(rep: &mut Report, case_no: u64) {
             }
         }};
     }
-    let pool = crate::sys::make_pool(1);
     let mut a = DispatcherBuilder::new();
     #[cfg(feature = "parallel")]
     a.add_pool(pool.clone());
@@ -384,7 +392,17 @@ fn same_named_types(rep: &mut Report, case_no: u64) {
     let _ = block_local!(b, true);
     let _ = block_local!(b, false);
     let _ = block_local!(b, true);
-    let _ = &pool;
+    let _ = pool;
+    (a, b, n0, n1)
+}
+
+/// Same registration structure over (a) distinctly named resource types and (b) distinct resource
+/// types that all carry the *same* type name (declared in sibling blocks): "which concrete types
+/// stand for the resources" must not matter, whatever their names are.
+fn same_named_types(rep: &mut Report, case_no: u64) {
+    rep.evaluations += 1;
+    let pool = crate::sys::make_pool(1);
+    let (a, b, n0, n1) = same_named_builders(&pool);
     let (sa, sb) = (a.build().verif_shape(), b.build().verif_shape());
     rep.metric("same_named_type_builds", 1);
     if n0 == n1 {
